@@ -4,11 +4,12 @@ CHECK = {
                suite("faults", "c06", 6000, 80000, stdin=True, args=["-mode", "tf"]),
                suite("recover", "c06", 2500, 30000, stdin=True, args=["-mode", "tr"]),
                suite("filters", "c06", 4000, 60000, stdin=True, args=["-mode", "fs"]),
-               suite("rpc", "c06", 2500, 40000, stdin=True, args=["-mode", "tp"])],
+               suite("rpc", "c06", 2500, 40000, stdin=True, args=["-mode", "tp"]),
+               suite("optracker", "c06", 3000, 60000, stdin=True, args=["-mode", "to"])],
     "gen": [{"pkg": "extract_c06", "out": "lean/ClusterVerif/Gen/C06.lean"}],
     "lean_sources": ["ClusterVerif/Model/C06.lean", "ClusterVerif/Spec/C06.lean", "ClusterVerif/Lemmas/C06.lean",
                      "ClusterVerif/Lemmas/C06F.lean", "ClusterVerif/Gen/C06.lean", "ClusterVerif/Model/C06S.lean",
-                     "ClusterVerif/Spec/C06S.lean", "ClusterVerif/Lemmas/C06S.lean"],
+                     "ClusterVerif/Spec/C06S.lean", "ClusterVerif/Lemmas/C06S.lean", "ClusterVerif/Model/C06O.lean", "ClusterVerif/Spec/C06O.lean"],
     "rule": "tracker cases = (this peer, 0-9 CIDs each with a pinset entry (absent/meta/allocated elsewhere/here/everywhere, recursive or direct), "
             "what the daemon holds (unpinned/direct/recursive/indirect), the last operation and its phase; filter 0, the 12 single statuses, bit 0, the "
             "composites and random unions incl. bits above 2^13); global cases = member list (reachable/unreachable/refusing peers), pinset entry, "
@@ -21,6 +22,8 @@ CHECK = {
             "almost-composite, random 13-bit, with bits above 2^13 or bit 0), a status, local or not; "
             "rpc cases = a tracker case with at most five filters, every view read through Cluster.*Local (local RPC), PinTracker.* (from a second "
             "host), Cluster.StatusAll/Status (one-member cluster); "
+            "optracker cases = 0-9 TrackNewOperation calls on 1-5 CIDs (types pin/unpin/remote, 1 in 8 unknown/shard/out of range; phases incl. out of range) "
+            "and 0-3 filters (OperationType or Phase values), read by GetAll, Status and Filter(filters...); "
             "one splitmix64 stream per case index; non-trivial = non-empty universe with the daemon answering / non-follower; distinct by case line",
     "trusted_base": ["scripted IPFSConnector RPC service stands in for ipfshttp (PinLsCid asks for the pin's own type, PinLs(type) lists that type; it keeps type "
                      "strings and turns them into statuses with the real IPFSPinStatusFromString; scripted failures per call)",
@@ -64,7 +67,14 @@ META = {
             "'all'); Cluster.StatusAll shows only members for every member list / reply table, and for a one-member cluster it is the member's "
             "own listing. Suite rpc: the same tracker cases read through the REAL RPC server of a Cluster (newRPCServer with DefaultRPCPolicy): "
             "Cluster.StatusLocal / StatusAllLocal by local RPC (judged by the whole tracker Spec and the model), PinTracker.Status / StatusAll "
-            "called by a second libp2p host over a stream, Cluster.StatusAll / Status of the one-member cluster - all routes must show the same view.",
+            "called by a second libp2p host over a stream, Cluster.StatusAll / Status of the one-member cluster - all routes must show the same view. "
+            "Round 8c: pintracker/optracker - the nested switch of trackerStatus (Operation.ToTrackerStatus), the type switch of filter, the shape of "
+            "filterOpsMap (Filter / filterOps) and the keep-the-ongoing-operation guard of TrackNewOperation are read with go/ast and INTERPRETED; theorems: "
+            "the interpreted switch is the documented type x phase table for EVERY type and phase value (anything else undefined) and equals the real function "
+            "evaluated on 6 x 5 values; Filter with at least one filter lists exactly the tracked operations matching every filter (any filter list), "
+            "independent of filter order, nothing without filters (and the refutation of 'no filter = all'); type+phase filters list only the status "
+            "ToTrackerStatus gives. Suite optracker: the REAL OperationTracker driven by TrackNewOperation sequences, GetAll / Status / Filter "
+            "judged by a Spec written from the doc comments and compared with the model.",
     "note": "Trusted: Lean kernel (+propext, Classical.choice, Quot.sound), hand-written model/spec, the Go harness with its scripted daemon and canned "
             "member replies. Known findings K02/K02f (Status says pin_error where StatusAll says unexpectedly_unpinned), K04 (unreachable member cluster_error for every "
             "listed CID), K06e/K06r (status remote with an error text after a failed housekeeping unpin) are reported as KNOWN-FINDING.",
